@@ -28,18 +28,52 @@ def showOutcome : Outcome → String
   | .s405 => "405" | .s403xsrf => "403-xsrf" | .crossSite => "cross-site" | .s400token => "400-token"
   | .s403auth => "403-auth" | .run true => "run-setcookie" | .run false => "run"
 
-def stepLine (line : String) : String :=
+def parseTok (s : String) : Option TokenArg :=
+  if s = "absent" then some .absent
+  else if s = "undecodable" then some .undecodable
+  else if s.startsWith "t" then (hexOr (s.drop 1).toString).map TokenArg.text
+  else none
+
+def parseHexList (s : String) : Option (List Bytes) :=
+  if s = "-" then some [] else (s.splitOn ",").mapM hexOr
+
+def parseIds (s : String) : Option (List Nat) :=
+  if s = "-" then some [] else (s.splitOn ",").mapM (·.toNat?)
+
+def stepLine (w : World) (line : String) : World × String :=
   match fields line with
   | ["req", idx, m, c, b, t, s, x] =>
     match idx.toNat?, parseMethod m, parseBool c, parseCred b, parseCred t, parseSfs s, parseBool x with
     | some i, some m, some c, some b, some t, some s, some x =>
       match Gen.C46.webRoutes[i]? with
-      | some r => if b = .undecodable then "bad-op" else showOutcome (serve r ⟨m, c, b, t, s, x⟩)
-      | none => "bad-op"
-    | _, _, _, _, _, _, _ => "bad-op"
-  | ["routes"] => toString Gen.C46.webRoutes.length
-  | _ => "bad-op"
+      | some r => if b = .undecodable then (w, "bad-op") else (w, showOutcome (serve r ⟨m, c, b, t, s, x⟩))
+      | none => (w, "bad-op")
+    | _, _, _, _, _, _, _ => (w, "bad-op")
+  | ["routes"] => (w, toString Gen.C46.webRoutes.length)
+  -- the history model: WebAuth state + issued session cookies
+  | ["hreset", pw, issued] =>
+    match hexOr pw, parseIds issued with
+    | some pw, some ids => (⟨pw, ids⟩, "ok")
+    | _, _ => (w, "bad-op")
+  | ["hset", v, fresh, hok] =>
+    match hexOr v, hexOr fresh, parseBool hok with
+    | some v, some fresh, some hok =>
+      let w' := (stepW (fun _ _ => false) (fun _ => hok) w (.setPw v fresh)).1
+      (w', if (configure (fun _ => hok) v fresh).isSome then "ok" else "rejected")
+    | _, _, _ => (w, "bad-op")
+  | ["hreq", idx, m, ck, auth, tok, s, x, newId, ver] =>
+    let ck' : Option (Option Nat) := if ck = "-" then some none else ck.toNat?.map some
+    let auth' : Option (Option Bytes) := if auth = "none" then some none else (hexOr auth).map some
+    match idx.toNat?, parseMethod m, ck', auth', parseTok tok, parseSfs s, parseBool x, newId.toNat?, parseHexList ver with
+    | some i, some m, some ck, some auth, some tok, some s, some x, some nid, some ver =>
+      match Gen.C46.webRoutes[i]? with
+      | some r =>
+        let (w', out) := stepW (fun _ pw => ver.contains pw) (fun _ => true) w (.req r ⟨m, ck, auth, tok, s, x⟩ nid)
+        (w', match out with | some o => showOutcome o | none => "bad-op")
+      | none => (w, "bad-op")
+    | _, _, _, _, _, _, _, _, _ => (w, "bad-op")
+  | _ => (w, "bad-op")
 
 end C46Driver
 
-def main : IO Unit := runPure C46Driver.stepLine
+def main : IO Unit := runState C46Driver.stepLine (⟨[], []⟩ : World)
